@@ -83,6 +83,7 @@ def features(b):
     return f
 
 
+CLASS_STATS = {}
 FOCUS = []          # substrings: features that mention one of them are covered first (set per check)
 
 
@@ -144,6 +145,10 @@ def select_behaviours(behs, n, rnd):
         covered |= feats[best]
         remaining.discard(best)
     ncover = len(chosen)
+    # how much of the model's step classes the chosen behaviours exercise (reported in the evidence)
+    all1 = set().union(*ones) if ones else set()
+    got1 = set().union(*[ones[i] for i in chosen]) if chosen else set()
+    CLASS_STATS.update({"step_classes_in_pool": len(all1), "step_classes_replayed": len(got1)})
     rest = list(remaining)
     rnd.shuffle(rest)
     chosen += rest[: max(0, n - len(chosen))]
@@ -399,6 +404,7 @@ def run(prop, tier, params, t0):
         "mc_configs": stats,
         "exhaustive": all(s["completed"] for s in stats),
         "behaviours_generated": len(all_b),
+        "step_classes": dict(CLASS_STATS),
         "behaviours_replayed": len(behaviours),
         "events_validated": n_events,
         "event_kinds": kinds,
